@@ -429,6 +429,10 @@ class SignalTimePDF(
 
         pd = np.zeros((n_values,), dtype=np.float64)
 
+        # The live-time and the time flux profile instances might have been
+        # changed since the last call.
+        self._update_S()
+
         events_time = tdm.get_data('time')
         for (src_idx, src_params_row) in enumerate(params_recarray):
             params = dict(zip(
